@@ -198,6 +198,47 @@ def main():
             fails.append((key, obj, len(raw_lines) * 100 + len(msgs)))
         if vlib.unhx(mo) != out[6:] and not (vlib.unhx(mo) == out[len(b"+OK \r\n"):]):
             mism.append(dict(obj, model_output=vlib.unhx(mo).decode("latin1")[:600]))
+    # ---------------------------------------------------------------- qmail-popup: before authentication
+    popup = rb.path("qmail-popup")
+    stub = os.path.join(vlib.scratch(), "checkpw.sh"); fd3out = os.path.join(vlib.scratch(), "fd3.out")
+    open(stub, "w").write("#!/bin/sh\ncat <&3 > \"$FD3OUT\"\ncase \"$STUBRC\" in k) kill -SEGV $$;; *) exit \"$STUBRC\";; esac\n"); os.chmod(stub, 0o755)
+    words = [b"USER joe", b"USER Ann ", b"USER", b"user  x y", b"PASS s3 cr3t", b"PASS", b"pass  p", b"APOP ann 0123abcd", b"APOP x ", b"APOP nospace", b"APOP  a  b c", b"NOOP", b"QUIT",
+             b"RETR 1", b"STAT", b"", b"   ", b"USER j\0oe", b"PASS a\0b", b"USER " + b"u" * 300, b"PASS " + b"p" * 700, b"XYZZY", b"USER\tjoe", b"uSeR Mixed"]
+    pj = []
+    for n in (1, 2):
+        for seq in itertools.product(range(len(words[:14])), repeat=n):
+            pj.append([words[i] for i in seq])
+    for _ in range(400 if ck.thorough else 120):
+        pj.append([rng.choice(words) for _ in range(rng.randint(1, 7))])
+    if not ck.thorough: pj = pj[:14] + rng.sample(pj[14:14 + 196], 60) + pj[210:]
+    plines, pres = [], []
+    for seq in pj:
+        eol = rng.choice([b"\r\n", b"\n"]); src = rng.choice(["0", "0", "1", "7", "k"])
+        data = b"".join(l + eol for l in seq)
+        if os.path.exists(fd3out): os.remove(fd3out)
+        pr = subprocess.run([popup, "pop.example", stub], input=data, stdout=subprocess.PIPE, stderr=subprocess.PIPE, env=dict(os.environ, FD3OUT=fd3out, STUBRC=src), timeout=30)
+        m = re.match(rb"^\+OK <([^>]*)>\r\n", pr.stdout)
+        fd3 = open(fd3out, "rb").read() if os.path.exists(fd3out) else None
+        raw = [l + (b"\r" if eol == b"\r\n" else b"") for l in seq]
+        pres.append((seq, pr, m, fd3, src))
+        plines.append("popup %s %s %s %s" % (vlib.hx(m.group(1)) if m else "-", ",".join(["x"] + [vlib.hx(l) if l else "-" for l in raw]), "1" if src == "k" else "0", "0" if src == "k" else src))
+    pm, _, _ = vlib.run_lines(drv, plines)
+    for (seq, pr, m, fd3, src), mo in zip(pres, pm):
+        ck.evaluated(); ck.count("popup_sessions"); ck.nontrivial(("popup", tuple(seq), src))
+        obj = dict(kind="history", program="qmail-popup", session=[l.decode("latin1") for l in seq], subprogram_exit=src, output=pr.stdout.decode("latin1")[:400],
+                   fd3=None if fd3 is None else vlib.hx(fd3))
+        if not m:
+            fails.append(("popup:no-greeting", obj, len(seq))); continue
+        banner = m.group(1); rest = pr.stdout[m.end():]
+        # direct oracles: the subprogram runs only after USER+PASS or APOP and gets exactly three NUL-terminated fields ending with the banner
+        if fd3 is not None:
+            parts = fd3.split(b"\0")
+            sawcred = any(l.strip().lower().startswith((b"pass", b"apop")) for l in seq)
+            if len(parts) != 4 or parts[3] != b"" or parts[2] != b"<" + banner + b">" or not sawcred or not parts[0]:
+                fails.append(("popup:credentials-not-verbatim", obj, len(seq)))
+        mrep, mfd = mo.split()
+        if vlib.unhx(mrep) != rest or (None if mfd == "none" else vlib.unhx(mfd)) != fd3:
+            mism.append(dict(obj, model_output=vlib.unhx(mrep).decode("latin1")[:400], model_fd3=mfd))
     # refuses to run as root
     p = subprocess.run([exe, "Maildir"], input=b"QUIT\r\n", stdout=subprocess.PIPE, stderr=subprocess.PIPE, cwd=base)
     ck.evaluated(); ck.count("root_refused")
@@ -221,7 +262,7 @@ def main():
     ck.proof_failure_violation(bool(real))
     ck.finish(trusted_base=[vlib.KERNEL_TB, vlib.EXTRACTION_TB, "checks/C19.py (maildir setup, the independent RFC 1939 reference, running qmail-pop3d under uid 65534)"],
               assumptions=["messages have distinct mtimes (equal mtimes are ordered by the heap, outside the property)", "STAT's message count is not reduced by DELE (documented; excluded by the property)",
-                           "the pre-authentication program qmail-popup is not covered by this check yet",
+                           "qmail-popup's subprogram is a stand-in that records descriptor 3 and exits with a chosen status; the 20-minute timeouts are not exercised",
                            "message numbers >= 2^64 wrap (recorded finding pop3:msgno-wraps-2^64)"])
 
 import re
